@@ -244,7 +244,7 @@ func cmdCheck(args []string) int {
 		if _, err := exec.LookPath("cvc5"); err == nil && os.Getenv("VERIF_NOMIRROR") == "" {
 			// every check-sat is also decided by cvc5 on the same incremental session; two decided verdicts that
 			// differ make the query inconclusive
-			eng.MirrorBin = []string{"cvc5", "--incremental", "--tlimit-per=20000"}
+			eng.MirrorBin = []string{"cvc5", "--incremental", "--tlimit-per=10000"}
 		}
 	}
 	hs := eng.Harnesses()
@@ -306,17 +306,17 @@ func cmdCheck(args []string) int {
 	known := loadKnown(id)
 	var (
 		paths, steps, asserts, trivial, discharged, inconcl, queries int
-		solverT                                                    time.Duration
-		funcs                                                      = map[string]bool{}
-		stubs                                                      = map[string]bool{}
-		notes                                                      = map[string]bool{}
-		bounds                                                     = map[string]int{}
-		inconclusive                                               []string
-		samples                                                    []interface{}
-		cexs                                                       []*gosym.Cex
-		cexH                                                       = map[*gosym.Cex]*gosym.Harness{}
-		ends                                                       = map[string]int{}
-		switches                                                   int
+		solverT                                                      time.Duration
+		funcs                                                        = map[string]bool{}
+		stubs                                                        = map[string]bool{}
+		notes                                                        = map[string]bool{}
+		bounds                                                       = map[string]int{}
+		inconclusive                                                 []string
+		samples                                                      []interface{}
+		cexs                                                         []*gosym.Cex
+		cexH                                                         = map[*gosym.Cex]*gosym.Harness{}
+		ends                                                         = map[string]int{}
+		switches                                                     int
 	)
 	for _, r := range results {
 		paths += r.Paths
@@ -488,29 +488,29 @@ func cmdCheck(args []string) int {
 		ev.Level = "translation_validation"
 	}
 	ev.Coverage = map[string]interface{}{
-		"states":                        paths,
-		"transitions":                   steps,
-		"traces_validated_against_impl": replayed + witOK,
+		"states":                                 paths,
+		"transitions":                            steps,
+		"traces_validated_against_impl":          replayed + witOK,
 		"passing_paths_cross_validated_natively": witOK,
-		"counterexamples_replayed_natively": replayed,
-		"samples":                       samples,
-		"harnesses":                     len(hs),
-		"functions_encoded":             map[string]interface{}{"count": nRepoFuncs, "all_including_std": len(funcs), "names": fnames},
-		"queries":                       map[string]interface{}{"total": queries, "assertions": asserts, "assertions_trivially_true_by_folding": trivial, "unsat": discharged, "unknown": inconcl},
-		"solver_s":                      solverT.Seconds(),
-		"second_solver":                 map[string]interface{}{"cmd": strings.Join(eng.MirrorBin, " "), "assertion_queries_cross_checked": eng.MirrorChecks, "verdict_disagreements": eng.Disagreements, "sessions_lost": eng.MirrorLost},
-		"path_ends":                     ends,
-		"bounds":                        bounds,
-		"limits":                        map[string]interface{}{"call_depth": eng.Defaults.MaxDepth, "loop_unwind": eng.Defaults.LoopBound, "steps_per_path": eng.Defaults.MaxSteps, "solver_timeout_ms": eng.TimeoutMs},
-		"stubs_hit":                     keys(stubs),
-		"inconclusive":                  inconclusive,
-		"uncovered":                     hgen.UncoveredFor(id),
-		"whitebox_harness_files_skipped": skippedWhitebox,
+		"counterexamples_replayed_natively":      replayed,
+		"samples":                                samples,
+		"harnesses":                              len(hs),
+		"functions_encoded":                      map[string]interface{}{"count": nRepoFuncs, "all_including_std": len(funcs), "names": fnames},
+		"queries":                                map[string]interface{}{"total": queries, "assertions": asserts, "assertions_trivially_true_by_folding": trivial, "unsat": discharged, "unknown": inconcl},
+		"solver_s":                               solverT.Seconds(),
+		"second_solver":                          map[string]interface{}{"cmd": strings.Join(eng.MirrorBin, " "), "assertion_queries_cross_checked": eng.MirrorChecks, "assertion_queries_not_cross_checked_because_the_second_solver_was_the_bottleneck": eng.MirrorSkipped, "verdict_disagreements": eng.Disagreements, "sessions_lost": eng.MirrorLost},
+		"path_ends":                              ends,
+		"bounds":                                 bounds,
+		"limits":                                 map[string]interface{}{"call_depth": eng.Defaults.MaxDepth, "loop_unwind": eng.Defaults.LoopBound, "steps_per_path": eng.Defaults.MaxSteps, "solver_timeout_ms": eng.TimeoutMs},
+		"stubs_hit":                              keys(stubs),
+		"inconclusive":                           inconclusive,
+		"uncovered":                              hgen.UncoveredFor(id),
+		"whitebox_harness_files_skipped":         skippedWhitebox,
 		"family_members_decided_by_other_checks": hgen.Elsewhere[id],
-		"known_findings_hit":            knownHits,
-		"task_switches":                 switches,
-		"exhaustive":                    len(inconclusive) == 0,
-		"explanation":                   "every feasible path of every harness within the stated bounds was executed symbolically over the SSA of the current /repo tree; each assertion was decided by z3 (unsat of path-condition ∧ ¬assertion)",
+		"known_findings_hit":                     knownHits,
+		"task_switches":                          switches,
+		"exhaustive":                             len(inconclusive) == 0,
+		"explanation":                            "every feasible path of every harness within the stated bounds was executed symbolically over the SSA of the current /repo tree; each assertion was decided by z3 (unsat of path-condition ∧ ¬assertion)",
 	}
 	if sc != nil {
 		ev.Coverage["programs"] = len(sc.progs)
@@ -807,15 +807,15 @@ func cmdSelftest(args []string) int {
 }
 
 var (
-	reGo        = regexp.MustCompile(`^(\s*)go (.+)$`)
-	reDeferUnl  = regexp.MustCompile(`^(\s*)defer ([\w\.]+)\.Unlock\(\)\s*$`)
-	reLock      = regexp.MustCompile(`^(\s*)([\w\.]+)\.Lock\(\)\s*$`)
-	reUnlock    = regexp.MustCompile(`^(\s*)([\w\.]+)\.Unlock\(\)\s*$`)
-	reAtomic    = regexp.MustCompile(`atomic\.(Load|Store|CompareAndSwap|Swap|Add)\w*\(|\.value\.(Load|Store|CompareAndSwap)\(`)
-	reAtomicM   = regexp.MustCompile(`\.(Load|Store|CompareAndSwap|Swap|Add)\(`)
-	reOnce      = regexp.MustCompile(`\b(\w+)\.Do\(`)
-	reIndent    = regexp.MustCompile(`^(\s*)(.*)$`)
-	rePackage   = regexp.MustCompile(`(?m)^package \w+\s*$`)
+	reGo           = regexp.MustCompile(`^(\s*)go (.+)$`)
+	reDeferUnl     = regexp.MustCompile(`^(\s*)defer ([\w\.]+)\.Unlock\(\)\s*$`)
+	reLock         = regexp.MustCompile(`^(\s*)([\w\.]+)\.Lock\(\)\s*$`)
+	reUnlock       = regexp.MustCompile(`^(\s*)([\w\.]+)\.Unlock\(\)\s*$`)
+	reAtomic       = regexp.MustCompile(`atomic\.(Load|Store|CompareAndSwap|Swap|Add)\w*\(|\.value\.(Load|Store|CompareAndSwap)\(`)
+	reAtomicM      = regexp.MustCompile(`\.(Load|Store|CompareAndSwap|Swap|Add)\(`)
+	reOnce         = regexp.MustCompile(`\b(\w+)\.Do\(`)
+	reIndent       = regexp.MustCompile(`^(\s*)(.*)$`)
+	rePackage      = regexp.MustCompile(`(?m)^package \w+\s*$`)
 	instrumentDirs = []string{".", "internal/atomic", "future", "mutable", "lazy", "promise", "iterator", "list", "seq", "fn1"}
 )
 
